@@ -8,6 +8,7 @@ import (
 	"os"
 	"path/filepath"
 	"sort"
+	"strconv"
 	"strings"
 
 	"simlens/plan"
@@ -49,6 +50,9 @@ func genDamageNode(r *rand.Rand) *plan.Plan {
 			plan.Op{Kind: "query", Index: ix, Text: "level=error OR code>=500", Start: qStart, End: qEnd, Size: 500, Args: map[string]any{"includeNulls": true}},
 			plan.Op{Kind: "query", Index: ix, Text: "* | stats count, sum(code), max(lat) by level", Start: qStart, End: qEnd},
 			plan.Op{Kind: "query", Index: ix, Text: "* | stats count, sum(code)", Start: qStart, End: qEnd},
+			// a time range that cuts through every block: the per-record time filter reads the timestamp column
+			plan.Op{Kind: "query", Index: ix, Text: "*", Start: simEpochMs + 1_200_000, End: simEpochMs + 2_400_000, Size: 500, Args: map[string]any{"includeNulls": true}},
+			plan.Op{Kind: "query", Index: ix, Text: "* | timechart span=10m count", Start: qStart, End: qEnd},
 		)
 	}
 	inc1.Ops = append(inc1.Ops, plan.Op{Kind: "mquery", Text: "dmm", Start: int64(t0) - 50, End: int64(t0) + 200, Step: 1})
@@ -189,8 +193,21 @@ func damageOracle(prop string, res *RunResult) []Violation {
 				if altered != "" {
 					cls := "altered-values-served"
 					if strings.HasPrefix(k, "grp:") {
-						cls = "aggregate-differs-without-error"
-						if errText != "" {
+						// lower = every differing measure is a number not above the undamaged one (what rows that went
+						// missing explain); altered = anything else (a measure grew or changed text)
+						cls = "aggregate-lower-without-error"
+						for fk2, gv := range gf {
+							wv, ok := wf[fk2]
+							if ok && wv == gv {
+								continue
+							}
+							g, e1 := strconv.ParseFloat(gv, 64)
+							w2, e2 := strconv.ParseFloat(wv, 64)
+							if !ok || e1 != nil || e2 != nil || g > w2 {
+								cls = "aggregate-altered-without-error"
+							}
+						}
+						if errText != "" && cls == "aggregate-lower-without-error" {
 							continue // partial aggregate with a reported error
 						}
 					}
@@ -221,9 +238,14 @@ func damageOracle(prop string, res *RunResult) []Violation {
 	return dedupV(vs)
 }
 
+// the timestamp column file is named by the hash of its column name like every other column file
+var tsColSuffix = fmt.Sprintf("_%d.csg", xxh64("timestamp"))
+
 func fileKindDamage(p string) string {
 	base := filepath.Base(p)
 	switch {
+	case strings.HasSuffix(base, tsColSuffix):
+		return "csg-timestamp"
 	case strings.HasSuffix(base, ".csg"):
 		return "csg"
 	case strings.HasSuffix(base, ".bsu"):
@@ -278,10 +300,10 @@ func damageTargets(dir string) map[string]int64 {
 
 func init() {
 	register(&Check{
-		ID:    "C18",
-		Level: "fault_enumeration",
-		Rule: "a small node is built deterministically (two indexes x two rotated log segments x 2-3 blocks, dictionary and plain columns, block summaries, micro-indexes, segment stats, rollups; one rotated metrics segment with tags tree) and shut down; then for a file of a segment one damage is applied (truncate to length n, or set byte i to a flipped bit / 0x00 / 0xFF), a fresh process boots on the tree and a fixed suite of 9 queries runs. Oracle per query: every returned row equals the undamaged row (nothing invented, nothing altered); rows may be missing only from queries that touch the damaged file and only with a reported error; no crash, no hang, start-up succeeds. thorough: every length and every byte x 3 of every segment file until the time budget (exhaustive flag only if all were run); quick: all bytes of the first 24 bytes of each file + a stratified sample. distinct = (file, damage); non-trivial = the damaged file is read by at least one suite query",
-		Run:   runC18,
+		ID:     "C18",
+		Level:  "fault_enumeration",
+		Rule:   "a small node is built deterministically (two indexes x two rotated log segments x 2-3 blocks, dictionary and plain columns, block summaries, micro-indexes, segment stats, rollups; one rotated metrics segment with tags tree) and shut down; then for a file of a segment one damage is applied (truncate to length n, or set byte i to a flipped bit / 0x00 / 0xFF), a fresh process boots on the tree and a fixed suite of 13 queries runs (incl. a time range cutting through every block and a timechart). Oracle per query: every returned row equals the undamaged row (nothing invented, nothing altered); rows may be missing only from queries that touch the damaged file and only with a reported error; no crash, no hang, start-up succeeds. thorough: every length and every byte x 3 of every segment file until the time budget (exhaustive flag only if all were run); quick: all bytes of the first 24 bytes of each file + a stratified sample. distinct = (file, damage); non-trivial = the damaged file is read by at least one suite query",
+		Run:    runC18,
 		Oracle: func(res *RunResult) []Violation { return damageOracle("C18", res) },
 		Assumptions: []string{
 			"one damage at a time; only files under the segment directories (log and metrics) are damaged",
@@ -375,6 +397,17 @@ func runC18(c *Ctx) {
 					break
 				}
 			}
+			// the timestamp column is read by every time-filtered query: ten evenly spread truncation lengths of
+			// each of its files on top of the sample (a cut inside a checksummed chunk must be detected, not
+			// answered with another block's timestamps)
+			for _, f := range names {
+				if fileKindDamage(f) != "csg-timestamp" {
+					continue
+				}
+				for kx := int64(0); kx < 10; kx++ {
+					pick = append(pick, Damage{BeforeInc: 1, File: f, Op: "trunc", At: files[f] * (2*kx + 1) / 20})
+				}
+			}
 			dmgs = pick
 		}
 		c.SetExtra(fmt.Sprintf("node%d_files", nd), len(names))
@@ -423,4 +456,65 @@ func splitFields(row string) map[string]string {
 		}
 	}
 	return out
+}
+
+// xxh64: XXH64 with seed 0 (the column file naming hash), written out here so that the driver needs no module
+// beyond the standard library.
+func xxh64(str string) uint64 {
+	const (
+		p1 uint64 = 11400714785074694791
+		p2 uint64 = 14029467366897019727
+		p3 uint64 = 1609587929392839161
+		p4 uint64 = 9650029242287828579
+		p5 uint64 = 2870177450012600261
+	)
+	rol := func(x uint64, r uint) uint64 { return x<<r | x>>(64-r) }
+	round := func(acc, in uint64) uint64 { return rol(acc+in*p2, 31) * p1 }
+	merge := func(acc, v uint64) uint64 { return (acc^round(0, v))*p1 + p4 }
+	le64 := func(b []byte) uint64 {
+		return uint64(b[0]) | uint64(b[1])<<8 | uint64(b[2])<<16 | uint64(b[3])<<24 | uint64(b[4])<<32 | uint64(b[5])<<40 | uint64(b[6])<<48 | uint64(b[7])<<56
+	}
+	le32 := func(b []byte) uint64 { return uint64(b[0]) | uint64(b[1])<<8 | uint64(b[2])<<16 | uint64(b[3])<<24 }
+	b := []byte(str)
+	n := len(b)
+	var h uint64
+	if n >= 32 {
+		q1, q2 := p1, p2 // variables: the sums wrap around
+		v1, v2, v3, v4 := q1+q2, q2, uint64(0), -q1
+		for len(b) >= 32 {
+			v1 = round(v1, le64(b[0:]))
+			v2 = round(v2, le64(b[8:]))
+			v3 = round(v3, le64(b[16:]))
+			v4 = round(v4, le64(b[24:]))
+			b = b[32:]
+		}
+		h = rol(v1, 1) + rol(v2, 7) + rol(v3, 12) + rol(v4, 18)
+		h = merge(h, v1)
+		h = merge(h, v2)
+		h = merge(h, v3)
+		h = merge(h, v4)
+	} else {
+		h = p5
+	}
+	h += uint64(n)
+	for len(b) >= 8 {
+		h ^= round(0, le64(b))
+		h = rol(h, 27)*p1 + p4
+		b = b[8:]
+	}
+	if len(b) >= 4 {
+		h ^= le32(b) * p1
+		h = rol(h, 23)*p2 + p3
+		b = b[4:]
+	}
+	for _, c := range b {
+		h ^= uint64(c) * p5
+		h = rol(h, 11) * p1
+	}
+	h ^= h >> 33
+	h *= p2
+	h ^= h >> 29
+	h *= p3
+	h ^= h >> 32
+	return h
 }
